@@ -32,7 +32,11 @@ func (m *EnvelopeMux) listen(ctx context.Context, c *channel) error {
 		return err
 	}
 
-	for c.Established() && ctx.Err() == nil {
+	// The loop runs until the receiver is done, instead of while the channel is established: a
+	// transport that was closed by the remote party may still hold envelopes to be received, and
+	// the receiver cannot deliver the last of them (like the finished session) if nobody
+	// consumes the ones before.
+	for ctx.Err() == nil {
 		ctx := sessionContext(ctx, c)
 
 		select {
